@@ -186,6 +186,18 @@ func TestPropWorkPanics(t *testing.T) {
 			}
 		}
 		sc.Delays = modsim.GenDelays(t, sc.Modules, 2)
+		if kind == "service" && mode == "finish" && rapid.Bool().Draw(t, "slowbackoff") {
+			// the panicked service worker sits in a long restart back-off when the module is stopped: "the module can still
+			// be stopped" (promptly, CheckC05); it is not run again before that, so the restart clause does not apply
+			last := &sc.Modules[len(sc.Modules)-1]
+			for i := range last.Work {
+				if last.Work[i].ID == 100 {
+					last.Work[i].BackoffMS = 6000
+				}
+			}
+			sc.Steps = []modsim.Step{{Op: "start"}, {Op: "launch", Mods: allNames(sc)}, {Op: "sleep", US: 20000}, {Op: "shutdown"}}
+			stats.Class("service_panic_then_stop_during_backoff")
+		}
 		res := judge(t, sc)
 		stats.Case(sc.Fingerprint(), true, "work_"+kind, "panic_"+pk, "mode_"+mode, fmt.Sprintf("healthy_%d", k))
 		if stats.WantSample("work_generated") {
@@ -224,6 +236,23 @@ func TestPropLifecyclePanics(t *testing.T) {
 			}
 		}
 		sc.Steps = append(sc.Steps, modsim.Step{Op: "shutdown"})
+		if rapid.IntRange(0, 4).Draw(t, "retrycase") == 0 {
+			// a start routine launches a worker and then panics; the module is started again by the next management pass
+			// and finally stopped: the counters must be back, the module must still be stoppable
+			for i := range sc.Modules {
+				sc.Modules[i].Prep, sc.Modules[i].Start, sc.Modules[i].Stop = modsim.Callback{}, modsim.Callback{}, modsim.Callback{}
+			}
+			x := &sc.Modules[len(sc.Modules)-1]
+			x.Work = []modsim.Work{{ID: 1, Kind: rapid.SampledFrom([]string{"startworker", "service", "start_mt_med"}).Draw(t, "rkind"), Mode: "waitctx", DelayUS: 300}}
+			x.Start = modsim.Callback{Fault: "panic", Panic: rapid.SampledFrom(modsim.PanicKinds).Draw(t, "rpanic"), FaultTimes: 1, Launch: []int{1}}
+			sc.Mgmt = true
+			sc.Enabled = nil
+			for _, m := range sc.Modules[:len(sc.Modules)-1] {
+				sc.Enabled = append(sc.Enabled, m.Name)
+			}
+			sc.Steps = []modsim.Step{{Op: "start"}, {Op: "enable", Mods: []string{x.Name}}, {Op: "manage"}, {Op: "manage"}, {Op: "shutdown"}}
+			stats.Class("start_panics_after_launching_work_then_retried")
+		}
 		sc.Delays = modsim.GenDelays(t, sc.Modules, 3)
 		res := judge(t, sc)
 		if v := modsim.CheckC01(sc, res); v != nil {
